@@ -225,6 +225,9 @@ type WriteFault struct {
 	Sticky bool `json:"sticky,omitempty"`
 	// Short: accept this many bytes of the failing call before returning the error (clipped to len-1).
 	Short int `json:"short,omitempty"`
+	// Whole: the failing call accepts all its bytes and still returns the error (what a writer does whose data went
+	// out but whose flush or sync failed) — allowed by the io.Writer contract.
+	Whole bool `json:"whole,omitempty"`
 	// Full >0: byte budget ("disk full"): Call is ignored, the crossing write is short, later writes fail.
 	Full int `json:"full,omitempty"`
 	// ErrKind: "" = sim.ErrInjectedWrite, "short-write" = io.ErrShortWrite, "closed-pipe" = io.ErrClosedPipe.
@@ -281,7 +284,9 @@ func (k *Sink) Write(p []byte) (int, error) {
 		} else if idx == f.Call || (f.Sticky && k.faultFired) {
 			fail = true
 			acc = 0
-			if idx == f.Call && f.Short > 0 {
+			if idx == f.Call && f.Whole {
+				acc = len(p)
+			} else if idx == f.Call && f.Short > 0 {
 				acc = f.Short
 				if acc > len(p)-1 {
 					acc = len(p) - 1
